@@ -55,6 +55,13 @@ def step (st : St) (op : String) : St × Option String :=
     let bundles := List.range st.prior ++ (if nv then [st.prior] else [])
     let labels := if ll then setLabel st.labels st.lname st.target else st.labels
     ({ st with nv := nv, ll := ll }, some (showObs bundles labels))
+  | "failonce" :: rest =>
+    -- a single failed store write, no crash: the new bundle is visible iff the operation reported
+    -- success, and then it is complete (every visible bundle downloads)
+    let kv := kvs rest
+    let ok := (kvGet kv "res") == some "ok"
+    let bundles := List.range st.prior ++ (if ok then [st.prior] else [])
+    (st, some (showObs bundles st.labels))
   | "retry" :: _ =>
     -- the operation run again, to completion, on what the crash left
     if st.op == "label" then
